@@ -25,6 +25,10 @@ type E2EScenario struct {
 	Service ServiceSpec    `json:"service"`
 	Scripts map[int]Script `json:"scripts"`
 	Clients []E2EClient    `json:"clients"`
+	// ShutdownAfterEnters > 0: Shutdown is called as soon as every client's
+	// connection has been accepted and that many handler invocations have begun,
+	// i.e. in the middle of the traffic: accepted connections are served to their end.
+	ShutdownAfterEnters int `json:"shutdown_after_enters,omitempty"`
 }
 
 // E2EClient is one client connection and its calls.
@@ -32,6 +36,9 @@ type E2EClient struct {
 	// Transport: "stream" | "bridge"
 	Transport string    `json:"transport"`
 	Calls     []E2ECall `json:"calls"`
+	// StartUs: simulated pause before dialling (stream transport; the scenario
+	// guarantees that the service is still serving then: another connection is open)
+	StartUs int `json:"start_us,omitempty"`
 }
 
 // E2ECall is one method call made through the client API.
@@ -170,6 +177,9 @@ func (s *E2EScenario) Setup(k *sim.Kernel) {
 		}
 		k.Spawn(sf("client%d", ci), func() {
 			sim.Await(sim.Cond{Kind: sim.CondBound, S1: network, S2: addr})
+			if cl.StartUs > 0 {
+				sim.Sleep(time.Duration(cl.StartUs) * time.Microsecond)
+			}
 			conn, ep, err := dialClient(cl.Transport, network, addr, pipe)
 			if err != nil {
 				sim.Rec("c.dialfail", sp(ci))
@@ -226,6 +236,13 @@ func (s *E2EScenario) Setup(k *sim.Kernel) {
 			sim.Rec("c.done", sp(ci))
 			sim.Await(sim.Cond{Kind: sim.CondQuiescent})
 			conn.Close()
+		})
+	}
+	if s.ShutdownAfterEnters > 0 {
+		k.Spawn("early-shutdown", func() {
+			awaitTriggers(sf("accepted:%d,ev:h.enter:%d", len(s.Clients), s.ShutdownAfterEnters), network, addr)
+			sim.Rec("shutdown.call", "early")
+			svc.Shutdown()
 		})
 	}
 	k.Spawn("controller", func() {
@@ -657,6 +674,47 @@ func init() {
 
 // genE2E builds the common part; params / script generators are supplied by the property.
 func genE2E(g *Gen, prop string, params func() string, script func(more bool) Script, pctMore int) *E2EScenario {
+	s := genE2EBase(g, prop, params, script, pctMore)
+	switch k := g.IntN(100); {
+	case k < 8:
+		// Shutdown in the middle of the traffic
+		n := 0
+		for _, cl := range s.Clients {
+			n += len(cl.Calls)
+		}
+		s.ShutdownAfterEnters = 1 + g.IntN(n)
+	case k < 16:
+		// a service with an idle timeout: the first client keeps its connection
+		// open over many expiries (a pause of two hours before one of its calls),
+		// the others connect in between and must be served like anybody else
+		s.Service.TimeoutNs = int64(1+g.IntN(1800)) * 1e9
+		c0 := &s.Clients[0]
+		c0.Transport, c0.StartUs = "stream", 0
+		c0.Calls[g.IntN(len(c0.Calls))].PauseUs = 7200e6
+		for i := 1; i < len(s.Clients); i++ {
+			s.Clients[i].StartUs = g.IntN(3600e6)
+		}
+	}
+	if prop == "C03" && g.Pct(10) {
+		// the empty object is an object too; the dispatcher finds no "cid" in it
+		// and runs script -1 (at most one such call per connection)
+		s.Scripts[-1] = script(false)
+		for ci := range s.Clients {
+			if g.Pct(60) {
+				cl := &s.Clients[ci]
+				c := &cl.Calls[g.IntN(len(cl.Calls))]
+				delete(s.Scripts, c.Cid)
+				c.Cid, c.Params, c.RetryDeadlineUs = -1, "{}", 0
+				if c.Flags&varlink.More != 0 {
+					c.Flags &^= varlink.More
+				}
+			}
+		}
+	}
+	return s
+}
+
+func genE2EBase(g *Gen, prop string, params func() string, script func(more bool) Script, pctMore int) *E2EScenario {
 	s := &E2EScenario{Prop: prop, Config: genConfig(g), Scripts: map[int]Script{}}
 	s.Config.YieldDensity = g.IntN(2)
 	s.Service = genService(g, 1+g.IntN(2), g.Pick("unix:@e2e", "tcp:127.0.0.1:4100"))
